@@ -100,6 +100,9 @@ def run(prog, rep):
     rep.rule('R3', 'dispatch tables name existing collectors', floor=15)
     rep.rule('R4', 'collectors read the documented fields', floor=10)
     rep.rule('R5', 'tallies incremented unconditionally in their type branch', floor=5)
+    rep.rule('R7', 'the service view the collectors walk lists every service (names unique over all services)', floor=1)
+    from .c07 import check_name_keyed_views
+    check_name_keyed_views(prog, rep, 'R7', only=('CLASS_NetworkService',))
 
     az = prog.cls(AUTHZ)
     amod = az.module
